@@ -3,6 +3,7 @@ package main
 import (
 	"encoding/json"
 	"fmt"
+	"strings"
 
 	"github.com/lidofinance/dc4bc/fsm/types/requests"
 )
@@ -39,6 +40,19 @@ func scenarioC10(c *Ctx) {
 			w := NewWorld(nt[0], nt[1], wi+2)
 			cases = append(cases, c10Cases(c, w, w.Users[0], fmt.Sprintf("-w%d", wi), true)...)
 		}
+	}
+	// two participants whose names differ by white space only ("user1" and "user1 ", each with its own
+	// key): neither may speak for the other
+	{
+		wb := NewWorld(3, 2, 9)
+		wb.Users[2] = wb.Users[1] + " "
+		wb.Keys[wb.Users[2]] = userKey(wb.Users[2])
+		report := func(kind string, sig map[string]interface{}, what string, rep map[string]interface{}) {
+			sig["kind"] = kind
+			c.Fail(Failure{Property: "C10", Kind: kind, Signature: sig, What: "(names differing by white space) " + what, Replay: rep})
+		}
+		round := "round-c10-blank-names"
+		cases = append(cases, speaksForCases(wb, wb.Users[0], round, wb.Honest(round, wb.Users[0]), "-blank", report)...)
 	}
 	cases = append(cases, reinitCases(c, w0, "C10")...)
 	runCases(c, cases)
@@ -181,7 +195,33 @@ func scenarioC05Node(c *Ctx) {
 			sig["kind"] = "confirmation-not-delivered-by-its-participant"
 			c.Fail(Failure{Property: "C05", Kind: sig["kind"].(string), Signature: sig, What: "a round took a participant's confirmation from somebody else: " + what, Replay: rep})
 		}
-		cases = append(cases, speaksForCases(w, me, round, w.Honest(round, me), tag, report)...)
+		h := w.Honest(round, me)
+		cases = append(cases, speaksForCases(w, me, round, h, tag, report)...)
+		// "any failure aborts it for good": an error report by the awaited participant, in each of the
+		// four key-generation phases, must reach the round through the node and cancel it
+		first := func(label string) int {
+			for i, it := range h {
+				if it.Label == label {
+					return i
+				}
+			}
+			panic("no " + label)
+		}
+		for _, ph := range []struct{ label, event string }{
+			{"commit", "event_dkg_commit_confirm_canceled_by_error"}, {"deal", "event_dkg_deal_confirm_canceled_by_error"},
+			{"response", "event_dkg_response_confirm_canceled_by_error"}, {"master", "event_dkg_master_key_confirm_canceled_by_error"}} {
+			k := first(ph.label) + 1 // one participant has already delivered in this phase
+			rep := w.Msg(round, ph.event, requests.DKGProposalConfirmationErrorRequest{ParticipantId: 1, Error: requests.NewFSMError(fmt.Errorf("machine failed")), CreatedAt: T(45)}, w.Users[1], "", w.Users[1], NOWMARK, "error-report-"+ph.label)
+			items := append(append([]Item{}, h[:k]...), rep)
+			ph := ph
+			cases = append(cases, HistCase{Kind: "error-report", User: me, Items: items, PrefixKey: fmt.Sprintf("%s/%d", round, k), Check: func(o RunObs) {
+				if o.Classes[len(o.Classes)-1] != "ok" || !strings.Contains(roundProj(o.After, round), "_canceled_by_error") {
+					c.Fail(Failure{Property: "C05", Kind: "failure-report-does-not-abort", Signature: map[string]interface{}{"kind": "failure-report-does-not-abort", "phase": ph.label},
+						What:   fmt.Sprintf("a participant's error report in the %s phase (%s) does not cancel the round on the node (answered %s)", ph.label, ph.event, o.Classes[len(o.Classes)-1]),
+						Replay: map[string]interface{}{"phase": ph.label, "event": ph.event, "after": roundProj(o.After, round)}})
+				}
+			}})
+		}
 	}
 	runCases(c, cases)
 	c.Notes["histories"] = len(cases)
